@@ -363,8 +363,12 @@ class Conic(Quadric):
         a1b1 = det([o, a1, b1])
         a1b2 = det([o, a1, b2])
 
-        c1 = csqrt(a2b1 * a2b2)
-        c2 = csqrt(a1b1 * a1b2)
+        def real_if_close(z: complex) -> complex:
+            # rounding errors in the imaginary part must not decide the branch of the square root
+            return np.real(z) if np.isclose(np.imag(z), 0, atol=EQ_TOL_ABS * np.abs(z)) else z
+
+        c1 = csqrt(real_if_close(a2b1 * a2b2))
+        c2 = csqrt(real_if_close(a1b1 * a1b2))
 
         x = Point(c1 * a1 + c2 * a2, copy=False)
         y = Point(c1 * a1 - c2 * a2, copy=False)
@@ -376,8 +380,11 @@ class Conic(Quadric):
             scale = np.max(np.abs(conic.array))
             return 0 if scale == 0 else np.abs(det(conic.array / scale))
 
+        def is_real(conic: Conic) -> bool:
+            return bool(np.allclose(np.imag(conic.array), 0, atol=EQ_TOL_ABS * np.max(np.abs(conic.array))))
+
         # one of the two solutions can be degenerate, prefer the real solution only if it is not the degenerate one
-        if np.all(np.isreal(conic1.array)) and relative_det(conic1) > EQ_TOL_ABS:
+        if is_real(conic1) and relative_det(conic1) > EQ_TOL_ABS:
             return conic1
         if relative_det(conic2) > EQ_TOL_ABS or relative_det(conic2) >= relative_det(conic1):
             return conic2
